@@ -425,20 +425,29 @@ func (p *Process) stopProcess(cancelReadinessFuncs bool) error {
 	}
 	// the command that is being stopped: after an internal stop run() may launch a new one
 	cmd := p.command
+	hasTimeout := p.procConf.ShutDownParams.ShutDownTimeout != UndefinedShutdownTimeoutSec
+	if hasTimeout {
+		// arm the timeout before signalling: the process may end (and onProcessEnd cancel the
+		// context) before Stop returns - a context created afterwards would never be cancelled
+		p.armStopTimeout()
+	}
 	err := cmd.Stop(p.procConf.ShutDownParams.Signal, p.procConf.ShutDownParams.ParentOnly)
 	if err != nil {
 		log.Error().Err(err).Msgf("terminating %s failed", p.getName())
 	}
-	if p.procConf.ShutDownParams.ShutDownTimeout != UndefinedShutdownTimeoutSec {
+	if hasTimeout {
 		return p.forceKillOnTimeout(cmd)
 	}
 	return err
 }
 
-func (p *Process) forceKillOnTimeout(cmd command.Commander) error {
+func (p *Process) armStopTimeout() {
 	p.mtxStopFn.Lock()
 	p.waitForStoppedCtx, p.waitForStoppedFn = context.WithTimeout(context.Background(), time.Duration(p.procConf.ShutDownParams.ShutDownTimeout)*time.Second)
 	p.mtxStopFn.Unlock()
+}
+
+func (p *Process) forceKillOnTimeout(cmd command.Commander) error {
 	<-p.waitForStoppedCtx.Done()
 	err := p.waitForStoppedCtx.Err()
 	switch {
